@@ -1219,7 +1219,11 @@ def case_lbfgsb(meta):
         if fail is None and not ref_ok:
             fail = ("L_BFGS_B(%s): returned x=%s f=%r nit=%s nfev=%s, scipy.optimize.fmin_l_bfgs_b with the same keywords returns x=%s f=%r nit=%s nfev=%s"
                     % (meta.get("kwargs", {}), fl(sol), float(info["func"]), info["nit"], info["nfev"], fl(rx), float(rf), rd["nit"], rd["funcalls"]))
-    expr = "check_lbfgsb %s %s %s %s && %s && %s && %s && check_lbfgsb_call %s %s %s %s %s" % (
+    # result translation through the model: SciPy's recorded (x, f, d) -> (solution, info) must be what the wrapper returned
+    res_expr = "check_lbfgsb_result (mk_lbr %s %s %s %s %s %s %s) %s (mk_lbi %s %s %s %s %s %s)" % (
+        cqvec(fl(res[0])), cq(float(res[1])), cqvec(fl(d["grad"])), cstr(task), cz(int(d["funcalls"])), cz(int(d["nit"])), cz(wf),
+        cqvec(fl(sol)), cz(int(info["success"])), cstr(msg), cq(float(info["func"])), cqvec(fl(info["grad"])), cz(int(info["nit"])), cz(int(info["nfev"])))
+    expr = res_expr + " && check_lbfgsb %s %s %s %s && %s && %s && %s && check_lbfgsb_call %s %s %s %s %s" % (
         cz(wf), cstr(task), cz(int(info["success"])), cstr(msg), cbool(same), cbool(args_ok), cbool(ref_ok),
         cbool(meta["with_grad"]), copts(meta.get("kwargs", {})), cbool(k.get("fprime") is not None), cz(int(k.get("approx_grad", -1))),
         copts(k, skip=("fprime", "approx_grad")))
@@ -1269,7 +1273,14 @@ def case_ls(meta):
     ref_ok = bool(np.array_equal(np.asarray(sol), ref["x"]) and info["nfev"] == ref["nfev"] and info["message"] == ref["message"])
     if fail is None and not ref_ok:
         fail = "LS: returned x=%s nfev=%s, scipy.optimize.least_squares(method, loss, xtol=tol, max_nfev=int(maxit)) returns x=%s nfev=%s" % (fl(sol), info["nfev"], fl(ref["x"]), ref["nfev"])
-    expr = "%s && %s && %s && %s && check_ls_call %s %s %s %s %s %s %s" % (
+    jac_obs = "LsCallable" if callable(k.get("jac")) else ("LsTwoPoint" if k.get("jac") == "2-point" else "LsCallable (* unexpected jac=%r *)" % (k.get("jac"),))
+    if not callable(k.get("jac")) and k.get("jac") != "2-point":
+        jac_obs = "LsTwoPoint" if meta["with_jac"] is True else "LsCallable"      # anything else: make the comparison fail
+    res_expr = "check_ls_result (mk_lsr %s %s %s %s %s %s) %s %s %s (mk_lsi %s %s %s %s %s)" % (
+        cqvec(fl(res["x"])), cqvec(fl(res["fun"])), cqmat(np.asarray(res["jac"], dtype=float).tolist()), cz(int(res["nfev"])), cbool(bool(res["success"])), cstr(str(res["message"])),
+        cbool(meta["with_jac"] is True), jac_obs, cqvec(fl(np.asarray(sol))),
+        cbool(bool(info["success"])), cstr(str(info["message"])), cqvec(fl(info["func"])), cqmat(np.asarray(info["jac"], dtype=float).tolist()), cz(int(info["nfev"])))
+    expr = res_expr + " && %s && %s && %s && %s && check_ls_call %s %s %s %s %s %s %s" % (
         cbool(same), cbool(args_ok), cbool(typ_ok), cbool(ref_ok), cstr(meta["method"]), cstr(meta["loss"]), cq(meta["tol"]), cq(float(meta["maxit"])),
         cstr(str(k.get("method"))), cstr(str(k.get("loss"))), copts(k))
     return Case(expr=expr, meta=meta, cell="ls/%s/%s/%s" % (meta["method"], meta["loss"], "jac" if meta["with_jac"] else "fd"), kind="DECISION",
@@ -1395,7 +1406,9 @@ def case_exit(meta):
     else:
         res = lambda v: ne_resid(meta["A"], meta["b"], meta["shift"], v)
     s0, sx, nx = float(np.linalg.norm(res(meta["x0"]))), float(np.linalg.norm(res(x))), float(np.linalg.norm(x))
-    res_ok, normx = bool(sx <= tol * s0), bool(nx * tol >= 1)
+    # 0.1% slack on the residual clause: the implementation tests the RECURRENCE residual, which differs from the residual recomputed at the
+    # returned point by rounding (same slack as the certificate of check_cgls_solve); no additive floor (tol = 0 must stay 'never')
+    res_ok, normx = bool(sx <= 1.001 * tol * s0), bool(nx * tol >= 1)
     cls = "R" if (k > 0 and res_ok) else ("X" if (k > 0 and normx) else "M")
     EXIT_CLASSES[("pcgls/" if pc else "cgls/") + cls] += 1
     fail = None
